@@ -231,17 +231,19 @@ theorem iter_unchecked_inBounds :
 example : shapeItem [2, 3, 2] 7 = some [1, 0, 1] ∧ inBounds [2, 3, 2] [1, 0, 1] = true := by decide
 example : LineIter.newRow 2 3 2 = .panic .explicit := rfl
 
-/-! ## `view_unchecked_inBounds`: adaptors map in-bounds view indexes to in-bounds source indexes
+/-! ## `view_unchecked_inBounds`: adaptors map in-bounds view indexes to in-bounds source indexes -/
 
-  Full statement (all tensor adaptors and their compositions): for every view `v` built by the
-  library's constructors (`View.WF`, C02) and every index inside `v.shape`,
-  `v.getUnchecked idx = .ok c` with `c` a cell of one of the view's own leaves, below that leaf's
-  element count.  That is C02's `view_unchecked_eq_checked` + `View.specCell_valid`
-  (Model/View.lean, Lemmas/ViewUnchecked.lean, Lemmas/ViewInjective.lean), which live on the C02
-  branch and are not part of this tree yet; what is missing here is only that import.  Proved
-  below (`_partial`): the sources the C09/C10 models cover — `Tensor`, `TensorAccess` over a
-  tensor (any ordering), `Matrix`, and `MatrixRange` / `MatrixReverse` nested to any depth,
-  empty views included. -/
+/-! The general statements — every tensor view adaptor and composition (from C02), every matrix
+  view composition (from C12) — are `EasyMl.C10.view_unchecked_inBounds` and
+  `EasyMl.C10.view_unchecked_inBounds_matrix` in **EasyMl/Props/C10Views.lean**: a module of its
+  own because C02's lemma files and C01's cannot be imported together at present (both declare
+  `EasyMl.mapDimensionsToSource_eq_coords`); the check audits both modules. -/
+
+/-! The same in the vocabulary of the iterator model (C09), which is what the access-log
+  predictions of the driver use: `Tensor`, `TensorAccess` over a tensor (any ordering), `Matrix`,
+  and `MatrixRange` / `MatrixReverse` nested to any depth, empty views included — with the
+  bound on the leaf offset.  (`_partial` in the sense that this vocabulary has no model of the
+  other tensor adaptors; the general statement is `view_unchecked_inBounds` above.) -/
 theorem view_unchecked_inBounds_partial [Inhabited ν] :
     -- `Tensor` as a source: in-bounds index ↦ row-major offset below the stored element count
     (∀ (t : Tensor ν α), TInv t → ∀ idx, inBounds (tensorSource t).shape idx = true →
